@@ -38,6 +38,22 @@ BUILTIN_SETS = {
     "ASCII": lambda c: c <= "\x7f",
 }
 
+
+def _gc(prefix: str):
+    """Unicode general-category rule, from CPython's tables; abstains outside U+0000-024F (blocks whose categories have been
+    the same for decades, so the version of anybody's Unicode tables cannot matter)."""
+    import unicodedata
+
+    def f(c: str) -> bool:
+        if c > "\u024f":
+            raise Abstain("unicode rule on a character outside U+0000-024F")
+        return unicodedata.category(c).startswith(prefix)
+
+    return f
+
+
+BUILTIN_SETS.update({"LETTER": _gc("L"), "UPPERCASE_LETTER": _gc("Lu"), "LOWERCASE_LETTER": _gc("Ll"), "NUMBER": _gc("N"), "DECIMAL_NUMBER": _gc("Nd"), "PUNCTUATION": _gc("P")})
+
 REPS = ("plus", "exact", "min", "max", "minmax")
 LEAVES = (
     "str", "ci", "range", "builtin", "any", "soi", "eoi", "ref", "pushlit", "peek",
